@@ -174,10 +174,14 @@ example : defaultsNotVarB (project [selPet none [selName]] []) = true := by deci
 /-! ### the order of the entries
 
 The ORDER in which a map is iterated (hence the order of fields in the printed operation) is not a
-function of the set of paths: it is whatever the order on keys makes it.  In the implementation that
-order compares the source locations embedded in object / list literals (open findings
-`order:composite-args`, `order:same-text`); the same insertions under two key orders give two
-different lists. -/
+function of the set of paths: it is whatever the order on keys makes it — the same insertions under two
+key orders give two different lists (`C15_witness_order`).  In the implementation the order is the derived
+`Ord` of `NormalizationKey` (`Merge.cmpKey`; the driver prints the model's maps in that order and the
+correspondence compares them with the implementation's iteration order), which looks at the source
+LOCATION of an object literal's field name before it looks at the field's value: two selections
+`pet(by: {a: 2})`, `pet(by: {a: 1})` are iterated in the order in which they were WRITTEN
+(`C15_witness_order_location_before_value`; open findings `order:composite-args`, `order:same-text`,
+replayed from corpus/C15). -/
 def C15_order_statement : Prop :=
   ∀ (lt lt' : Nat → Nat → Bool), StrictTotal lt → StrictTotal lt' →
     ∀ l : List (Nat × Unit), build lt l = build lt' l
@@ -190,6 +194,22 @@ theorem C15_witness_order : ¬ C15_order_statement := by
      fun a b hab hba => (hlt.total b a hab hba).symm⟩
   have := h natLt (fun a b => natLt b a) hlt hgt [(1, ()), (2, ())]
   revert this
+  decide
+
+/-- the key of `pet(by: {a: n})` written as argument 0 of selection number `i` of declaration 0 -/
+def petBy (n : Int) (i : Nat) : KeyK := .serverField "pet" [⟨"by", .object [("a", .int n)], [0, 0, i, 0]⟩]
+
+/-- "the order of two keys depends only on their (field, arguments)": with `x` written before `y` -/
+def C15_order_by_content_at (x y : Int) : Prop :=
+  cmpKey (project [] []) (petBy x 0) (petBy y 1) = compare x y
+
+/-- The implementation orders `pet(by: {a: 2})` (written first) BEFORE `pet(by: {a: 1})` (written second),
+and the other way round when they are written the other way round. -/
+theorem C15_witness_order_location_before_value :
+    ¬ C15_order_by_content_at 2 1
+      ∧ cmpKey (project [] []) (petBy 2 0) (petBy 1 1) = .lt
+      ∧ cmpKey (project [] []) (petBy 1 0) (petBy 2 1) = .lt := by
+  unfold C15_order_by_content_at
   decide
 
 end IsoVerif.Props.C15
